@@ -61,14 +61,17 @@ type tierCfg struct {
 }
 
 func tierFor(prop, tier string) tierCfg {
-	t := tierCfg{runs: 30000, wallS: 45, chunk: 1500, seeds: 1}
+	t := tierCfg{runs: 100000, wallS: 45, chunk: 2500, seeds: 1}
+	if prop == "C06" {
+		t.runs = 40000 // legal 256 MB announcements make some runs slow
+	}
 	if tier == "thorough" {
 		t = tierCfg{runs: 1500000, wallS: 600, chunk: 4000, seeds: 3}
 	}
 	switch prop {
 	case "C10":
 		t.race = true
-		t.raceRuns = 4000
+		t.raceRuns = 6000
 		if tier == "thorough" {
 			t.raceRuns = 120000
 		}
